@@ -53,6 +53,7 @@ LONG_NAMES = [("case_id", "reading_id", "dim_id"), ("inst", "tp", "var"), (None,
 LONG_UNNAMED = ("index", "time_index", "column")      # headers of a long table made without any name
 LONG_CALLS = [0]
 MI_CALLS = [0]
+NP_CALLS = [0]
 
 
 def long_names(obj):
@@ -85,12 +86,29 @@ def convert(obj, frm, to):
             big = D.from_nested_to_multi_index(pd.concat([obj, extra]), instance_index="inst", time_index="tp")
             return big.loc[list(obj.index)]
         return D.from_nested_to_multi_index(obj, instance_index="inst", time_index="tp")
-    if frm == "mi" and to == "ns":
+    if frm == "mi" and to in ("ns", "na"):
+        MI_CALLS[0] += 1
+        if MI_CALLS[0] % 3 == 0:
+            # rows in arrival order (time point by time point) rather than grouped by instance: the conversion selects
+            # the rows of each instance, so the order of the rows across instances does not matter
+            insts = list(dict.fromkeys(obj.index.get_level_values(0)))
+            t = len(obj) // max(1, len(insts))
+            obj = obj.iloc[[i * t + k for k in range(t) for i in range(len(insts))]]
+        if to == "na":
+            return D.from_multi_index_to_nested(obj, instance_index=obj.index.names[0], cells_as_numpy=True)
         return D.from_multi_index_to_nested(obj, instance_index=obj.index.names[0])
     if frm == "mi" and to == "np3":
         return D.from_multi_index_to_3d_numpy(obj, instance_index=obj.index.names[0], time_index=obj.index.names[1])
     if frm == "np3" and to == "mi":
-        return D.from_3d_numpy_to_multi_index(obj, instance_index="inst", time_index="tp")
+        # the level names asked for are the ones the frame gets, each on its own (defaults: instances, timepoints)
+        NP_CALLS[0] += 1
+        kw = [dict(instance_index="inst", time_index="tp"), dict(instance_index="inst"), dict(time_index="tp"), dict()][NP_CALLS[0] % 4]
+        out = D.from_3d_numpy_to_multi_index(obj, **kw)
+        want = [kw.get("instance_index", "instances"), kw.get("time_index", "timepoints")]
+        if list(out.index.names) != want:
+            raise AssertionError("LevelNames: from_3d_numpy_to_multi_index(%s) names its index levels %s, not %s"
+                                 % (", ".join("%s=%r" % kv for kv in kw.items()), list(out.index.names), want))
+        return out
     if frm in ("ns", "na") and to == "long":
         # the default column names and user-chosen ones alternate
         LONG_CALLS[0] += 1
